@@ -780,6 +780,8 @@ def expected_message(case, obs):
     """The message text the error page was asked to show (None = not known to the harness)."""
     from cherrypy.lib import httputil
     sink = case['sink']
+    if has_surrogate(case['payload']):
+        return None                      # un-encodable text: the code answers with some other (500) page
     code = int(obs['status'][:3])
     default = httputil.valid_status(code)[2]
     if sink in ('errmsg', 'errmsg_tb'):
@@ -1182,9 +1184,16 @@ def run(ctx):
     # 3. systematic small scope (every tier)
     run_unit_cases(ctx, systematic_unit_cases())
     # 4. generated cases
+    # lone surrogates (a Python str can hold them, no client can send them): oracle only
+    sur = [{'kind': 'wsgi', 'sink': sk, 'payload': pl, 'proto': pr, 'name': 'X-Probe', 'attr': 'path', 'code': 404,
+            'rstatus': None}
+           for sk in ('hv', 'hn', 'ckattr', 'reason', 'errmsg', 'redirect', 'nf_raise', 'referer', 'sesspath')
+           for pl in ('\ud800', 'a\udfff\r\nb<', '\u8200\udc80"')
+           for pr in ('HTTP/1.0', 'HTTP/1.1')]
+    run_wsgi_cases(ctx, sur)
     if ctx.quick():
-        run_wsgi_cases(ctx, [gen_case(ctx.rng) for _ in range(2600)])
-        run_unit_cases(ctx, gen_unit_cases(ctx.rng, 2400))
+        run_wsgi_cases(ctx, [gen_case(ctx.rng) for _ in range(6000)])
+        run_unit_cases(ctx, gen_unit_cases(ctx.rng, 6000))
     else:
         _WORKER_LEAN[0] = ctx.lean
         procs = min(16, os.cpu_count() or 4)
